@@ -215,7 +215,8 @@ fn fst_case(case: u64, rng: &mut Rng, rep: &mut Report, thorough: bool) {
         }
     }
 
-    let autos = gen_automata(rng, &keys, 14);
+    let total_key_bytes: usize = keys.iter().map(|k| k.len()).sum();
+    let autos = gen_automata(rng, &keys, if total_key_bytes > 300_000 { 4 } else { 14 });
     for a in &autos {
         queries += 1;
         let (lo, hi) = if rng.chance(1, 3) {
